@@ -42,33 +42,28 @@ def clean_json(o):
     return o
 
 
-def judge_traces(report, module, cfg, traces, rundir, batch=400, workers=None, timeout=3000, env=None):
-    """traces: list of {'id': int, 'ev': [events]}.  Returns {(id, l, group): (kind, detail)}.
-
-    One TLC run per batch; every event must come back with exactly one VERDICT line, otherwise
-    the batch is re-run single-threaded, and if that fails too the run is a machinery failure."""
-    verdicts = {}
-    for b0 in range(0, len(traces), batch):
-        chunk = traces[b0 : b0 + batch]
-        path = os.path.join(rundir, "%s-%d.ndjson" % (module, b0))
-        with open(path, "w") as f:
-            for t in chunk:
-                f.write(json.dumps(clean_json(t), separators=(",", ":")) + "\n")
-        expect = {(t["id"], l + 1, g) for t in chunk for l, e in enumerate(t["ev"]) for g in e.get("groups", ["elim"])}
-        got = None
-        for attempt, w in enumerate((workers or NPROC, 1)):
+def _judge_chunk(report, module, cfg, chunk, rundir, tag, workers, timeout, env):
+    """One TLC run over `chunk`.  Returns (verdict dict, None) or (None, reason)."""
+    path = os.path.join(rundir, "%s-%s.ndjson" % (module, tag))
+    with open(path, "w") as f:
+        for t in chunk:
+            f.write(json.dumps(clean_json(t), separators=(",", ":")) + "\n")
+    expect = {(t["id"], l + 1, g) for t in chunk for l, e in enumerate(t["ev"]) for g in e.get("groups", ["elim"])}
+    reason = "?"
+    try:
+        for w in (workers or NPROC, 1):
             e = {"TRACE_FILE": path}
             if env:
                 e.update(env)
             res = run_tlc(module, cfg, rundir, env=e, workers=w, timeout=timeout)
             if res["timed_out"] or res["error"] or res["rc"] != 0:
-                tail = "\n".join(res["out"].splitlines()[-30:])
-                if attempt == 1:
-                    die("trace validation %s failed (rc=%s)\n%s" % (module, res["rc"], tail))
+                m = [ln for ln in res["out"].splitlines() if "Overflow" in ln or ln.startswith("Error:")]
+                reason = "tlc-error: " + (m[-1][:120] if m else "rc=%s" % res["rc"])
+                if "Overflow" in res["out"]:
+                    break          # deterministic: re-running single-threaded cannot help
                 continue
             v = parse_verdicts(res["out"])
-            got = {}
-            bad = False
+            got, bad = {}, False
             for tid, lst in v.items():
                 for fields in lst:
                     try:
@@ -81,15 +76,49 @@ def judge_traces(report, module, cfg, traces, rundir, batch=400, workers=None, t
                     got[key] = (fields[2], fields[3] if len(fields) > 3 else "")
             if not bad and set(got) == expect:
                 report.add_tlc(stats_of(res))
-                break
-            got = None
-        if got is None:
-            die("trace validation %s: verdict lines do not match the events sent" % module)
-        verdicts.update(got)
+                return got, None
+            reason = "verdict lines do not match the events sent"
+        return None, reason
+    finally:
         try:
             os.remove(path)
         except OSError:
             pass
+
+
+def judge_traces(report, module, cfg, traces, rundir, batch=400, workers=None, timeout=3000, env=None):
+    """traces: list of {'id': int, 'ev': [events]}.  Returns {(id, l, group): (kind, detail)}.
+
+    One TLC run per batch; every event must come back with exactly one VERDICT line.  When a
+    batch makes TLC fail (e.g. an arithmetic overflow that the magnitude pre-checks did not
+    foresee) it is split recursively; a single trace that still fails is reported loudly and all
+    its events become `unjudged` (never a verdict, never a silent pass of the others).  If more
+    than 2% of the traces end up like that the run is a machinery failure."""
+    verdicts, failed = {}, []
+
+    def rec(chunk, tag):
+        got, reason = _judge_chunk(report, module, cfg, chunk, rundir, tag, workers, timeout, env)
+        if got is not None:
+            verdicts.update(got)
+            return
+        if len(chunk) == 1:
+            t = chunk[0]
+            failed.append((t["id"], reason))
+            print("TLC-ERROR %s trace %s: %s -- its events are counted as unjudged" % (module, t["id"], reason), flush=True)
+            for l, e in enumerate(t["ev"]):
+                for g in e.get("groups", ["elim"]):
+                    verdicts[(t["id"], l + 1, g)] = ("unjudged", "tlc-error")
+            return
+        mid = len(chunk) // 2
+        rec(chunk[:mid], tag + "a")
+        rec(chunk[mid:], tag + "b")
+
+    for b0 in range(0, len(traces), batch):
+        rec(traces[b0 : b0 + batch], str(b0))
+    if len(failed) > max(2, len(traces) // 50):
+        die("trace validation %s: TLC failed on %d of %d traces (first: %s)" % (module, len(failed), len(traces), failed[0]))
+    if failed:
+        report.notes.append("%s: TLC failed on traces %s (events unjudged)" % (module, [f[0] for f in failed][:10]))
     return verdicts
 
 
